@@ -913,15 +913,17 @@ impl<'a> Checker<'a> {
                         let q = Q::simple(rt, vec![u.clone()]);
                         let r = eval(store, &q, &no_ctx);
                         evals += 1;
-                        self.union_law(&q, &exp, domain, r, format!("union:{}:{}|{}", rt.name(), a.kind(), b.kind()), stats);
+                        self.union_law(&q, &exp, domain, r, format!("union:{}:{}|{}", rt.name(), a.kind(), b.kind()), false, stats);
                         if cs.len() >= 3 {
                             if let Some(Run::Rows(rc)) = singles.get(&idx[2]) {
-                                let sc = to_set(&last_col(rc));
+                                let col_c = last_col(rc);
+                                let sc = to_set(&col_c);
+                                let leading_dups = sc.len() != col_c.len();
                                 let exp2: BTreeSet<Item> = exp.intersection(&sc).cloned().collect();
                                 let q = Q::simple(rt, vec![cs[2].clone(), u.clone()]);
                                 let r = eval(store, &q, &no_ctx);
                                 evals += 1;
-                                self.union_law(&q, &exp2, domain, r, format!("union_later:{}:{}>{}|{}", rt.name(), cs[2].kind(), a.kind(), b.kind()), stats);
+                                self.union_law(&q, &exp2, domain, r, format!("union_later:{}:{}>{}|{}", rt.name(), cs[2].kind(), a.kind(), b.kind()), leading_dups, stats);
                             }
                         }
                         if q.printable() {
@@ -984,13 +986,16 @@ impl<'a> Checker<'a> {
         }
     }
 
-    fn union_law(&mut self, q: &Q, exp: &BTreeSet<Item>, domain: Option<&BTreeSet<Item>>, r: Run, key: String, stats: &mut BTreeMap<&'static str, usize>) {
+    /// `leading_has_duplicates`: the constraint written before the union answers with duplicates when it is
+    /// taken alone (an annotation that names another one twice lists it twice among its targets, as built);
+    /// the union filters those rows and cannot be held responsible for them
+    fn union_law(&mut self, q: &Q, exp: &BTreeSet<Item>, domain: Option<&BTreeSet<Item>>, r: Run, key: String, leading_has_duplicates: bool, stats: &mut BTreeMap<&'static str, usize>) {
         match r {
             Run::Rows(rows) => {
                 *stats.entry("c08.union_evaluated").or_insert(0) += 1;
                 let col = last_col(&rows);
                 let mut s = to_set(&col);
-                if s.len() != col.len() {
+                if s.len() != col.len() && !leading_has_duplicates {
                     self.q_violation("duplicate", key.clone(), format!("{} returns duplicates: {:?}", q.describe(), col));
                 }
                 if let Some(d) = domain {
